@@ -401,7 +401,16 @@ def r8_declared_limit_is_stored(ctx):
     c19.r3_builders(Renamed(ctx, "C11.R8", "ApiEndpoint::request_body_max_bytes stores exactly the declared value as the endpoint's override (all builders write their argument unmodified)"))
 
 
-RULES = [("C11.R8", r8_declared_limit_is_stored), ("C11.R7", r7_frame_errors_are_errors), ("C11.R1", r1_cap_before_delivery), ("C11.R2", r2_refusal_final), ("C11.R3", r3_cap_provenance), ("C11.R4", r4_effective_limit), ("C11.R5", r5_who_reads_body), ("C11.R6", r6_only_counted_bytes_refuse)]
+def r9_refusal_cannot_panic(ctx):
+    """`any larger body is refused with a 400-level error however it is framed`: the code that refuses (and drains) an oversize body has no
+    potential panic site outside the reviewed table.  This is C10.R4, re-evaluated here (adversary change C11-H re-enabled
+    `assert!(body.is_end_stream())` after the drain loop, which fails for chunked bodies)."""
+    from . import c10
+    from .lib_c01 import Renamed
+    c10.r4_panic_census(Renamed(ctx, "C11.R9", "no unreviewed potential panic site on the request path, the body drain included: a refusal is a response, not a dropped connection"))
+
+
+RULES = [("C11.R9", r9_refusal_cannot_panic), ("C11.R8", r8_declared_limit_is_stored), ("C11.R7", r7_frame_errors_are_errors), ("C11.R1", r1_cap_before_delivery), ("C11.R2", r2_refusal_final), ("C11.R3", r3_cap_provenance), ("C11.R4", r4_effective_limit), ("C11.R5", r5_who_reads_body), ("C11.R6", r6_only_counted_bytes_refuse)]
 
 SELFTEST = [
     {"name": "ge-for-gt", "kind": "mutant", "edits": [("dropshot/src/extractor/body.rs", "if bytes_read + len > self.cap {", "if bytes_read + len >= self.cap {")], "expect": ["C11.R1"],
@@ -486,3 +495,4 @@ LEVEL_TEXT += (" The stream model is built on the normalised view and names valu
                "under a refusing cap edge, or on the Err case of awaiting BodyExt::frame / http_dump_body: lib_c11.failure_splits), R7 walks path-sensitively (lib_c10.path_states, known variants carried through "
                "`Poll::Ready(..)` / `Some(..)` wrappers) from the Err case of a frame to the error item. The cap is `self.cap` captured by the generator or the `cap` field of a captured whole `self` that the generator never "
                "assigns or mutably borrows; the compared sum must structurally be running-count + Bytes::len(payload) (also let-bound / saturating_add), so another comparison with the cap (an asserted invariant) is not the check.")
+LEVEL_TEXT += ' Also (R9 = C10.R4): the request path, including the drain of an oversize body, has no unreviewed panic site.'
